@@ -19,6 +19,7 @@ DECIDED = [
     "evicted from its previous queue and a queue without topics is removed (an empty topic set means 'no filter')",
     "R-C11-WIRING (connection): every connection-bound object (worker, queue, job, runner, handle, MessageDependency) created by a connection-bound object receives the creator's connection; R-C11-FILTER (bounce): RabbitMQ bounces (paused / foreign topic) requeue unconditionally and end the delivery",
     "R-C11-WIRING (keys): C07's key-encoding rules reused (queue and topic keep their places in Redis keys); R-C11-FILTER (scan): exhaustive paging",
+    "R-C11-WIRING (round 5): the testing plugin's run-on-enqueue decision is controlled by tests on the key's queue AND topic (CFG: the tests of which exactly one branch reaches worker.run()); R-C11-SYNC: the forget rule names the previous queue's set in its emptiness test and its del",
 ]
 NOT_DECIDED = ["behaviour of several workers sharing a queue over time (schedules)"]
 ASSUMPTIONS = ["aiormq basic_reject defaults to requeue=True (re-checked from the installed source in the thorough tier)", "validated names contain no ':' (C07-ALPHABET)"]
@@ -27,6 +28,7 @@ ROUTER = "repid.router.Router"
 
 
 def run(ctx: Ctx) -> None:
+    plugin_route(ctx)
     from .C07 import alphabet
 
     with ctx.as_rule("R-C11-WIRING"):
@@ -239,6 +241,28 @@ def filters(ctx: Ctx, rule="R-C11-FILTER") -> None:
               f"rabbitmq topic filter is {[t.label for t in tests]}", instance="rabbitmq filter operand")
 
 
+def plugin_route(ctx: Ctx, rule="R-C11-WIRING") -> None:
+    """The testing plugin's run-on-enqueue worker is started only for jobs its worker would consume: the job's queue is one of the worker's queues AND the topic one of that queue's topics."""
+    f = ctx.func("repid.testing.modifiers.RunWorkerOnEnqueueModifier.wrapper")
+    inner = C.nested_of(f, None, want_async=True)
+    ctx.require(inner is not None, f"{f.qualname}: wrapped enqueue not found")
+    g = ctx.cfg(inner)
+    runs = [n for n in g.calls() if isinstance(n.ast.func, ast.Attribute) and n.ast.func.attr == "run"]
+    ctx.require(bool(runs), f"{inner.qualname}: worker run not found")
+    back = flow.reach_back(g, [runs[0].id], flow.NORMAL_KINDS)
+    ctl = []
+    for t in g.nodes:
+        if t.kind == "test" and t.id in back:
+            sides = [runs[0].id in flow.reach(g, [d for d, k in g.succ[t.id] if k == kind], flow.NORMAL_KINDS, include_start=True) for kind in ("T", "F")]
+            if sides.count(True) == 1:  # the test decides whether the worker is run (if-form and early-return form alike)
+                ctl.append(t)
+    txt = " ; ".join(C.utext(inner, t.ast, calls="all") for t in ctl)
+    ok = ".queue" in txt and ".topic" in txt
+    ctx.check(ok, rule, inner, "run-on-enqueue decides by queue and topic", "key.queue in topics_by_queue and key.topic in topics_by_queue[key.queue]",
+              f"the run-on-enqueue modifier starts its worker under `{txt[:120]}`: a job whose name the worker knows but that was sent to a queue the worker does not serve starts a worker "
+              "that never receives it (enqueue blocks), or is executed through a queue it was not sent to", instance="plugin: queue and topic")
+
+
 def sync(ctx: Ctx, rule="R-C11-SYNC") -> None:
     cls = ctx.prog.cls(ROUTER)
     writers = 0
@@ -314,6 +338,11 @@ def sync(ctx: Ctx, rule="R-C11-SYNC") -> None:
     ok = bool(dels) and bool(disc) and all(d.id in flow.reach(g, [disc[0].id], flow.NORMAL_KINDS) for d in dels)
     guards = [t for t in g.nodes if t.kind == "test" and "topics_by_queue" in C.utext(ft, t.ast)]
     ok = ok and any(C.emptiness_test(t.ast) is not None and "topics_by_queue" in C.utext(ft, C.emptiness_test(t.ast)) for t in guards)
+    # the set tested for emptiness and the entry deleted are the very set the name was discarded from (the previous queue's), not some other key
+    disc_set = C.utext(ft, disc[0].ast.func.value) if disc else ""
+    subj = [C.utext(ft, C.emptiness_test(t.ast)) for t in guards if C.emptiness_test(t.ast) is not None]
+    del_keys = [C.utext(ft, n.ast.targets[0]) if isinstance(n.ast, ast.Delete) else (n.target or "")[4:] for n in dels]
+    ok = ok and all(s_ == disc_set for s_ in subj) and all(C.utext(ft, ast.parse(k, mode="eval").body) == disc_set if k else False for k in del_keys)
     ctx.check(ok, rule, ft, "a queue left without topics is removed", "del topics_by_queue[q] when its set became empty",
               "_forget_topic leaves a queue with an empty topic set behind: the worker still opens a consumer for it and an empty topic set means 'no filter', so it takes every "
               "message of that queue (executing moved names through the wrong queue, crashing on foreign ones)", instance="forget: empty set removed")
